@@ -53,7 +53,8 @@ def cpu_segment(b, cur, feats, live):
     xt = b.t(cur)
     kinds = ["custom", "custom2", "float_detour", "floor_div", "cast", "neg", "reverse", "int32_detour", "rank5", "batch2",
              "dyn_conv", "dyn_fc", "custom_const_in", "const_only", "shape_use", "pool_global_cpu", "topk_like", "opt_missing",
-             "const_conv_cpu", "const_conv_cpu", "float_fc_const", "tconv_cpu"]
+             "const_conv_cpu", "const_conv_cpu", "float_fc_const", "tconv_cpu", "custom_mid_missing", "custom_mid_missing",
+             "svdf_float", "tconv_mid_missing"]
     kind = rng.choice(kinds)
     b.net.desc.append("cpu:" + kind)
     if not _q(b, cur):
@@ -231,6 +232,58 @@ def cpu_segment(b, cur, feats, live):
             Padding=0, StrideW=3, StrideH=3, FusedActivationFunction=act)), version=rng.choice([1, 3])))
         feats.add("transpose_conv_on_cpu" + ("_fused_activation" if act else ""))
         return y
+    if kind == "custom_mid_missing":
+        # third-party operator with an omitted optional operand (-1) *before* a real operand: [a, -1, c] (also [-1, a], [a, -1, -1, c])
+        other = rng.choice(live)
+        ins = rng.choice([[cur, -1, other], [-1, cur], [cur, -1, -1, other], [cur, other, -1, cur]])
+        o = b.fm(xt.shape, xt.dtype, scale=xt.scales[0], zp=xt.zps[0])
+        b.net.ops.append(Op("CUSTOM", ins, [o], None, custom_code=rng.choice(["OptionalMiddle", "ThirdPartyOp"]),
+                            custom_options=bytes(rng.getrandbits(8) for _ in range(rng.choice([2, 5, 9])))))
+        feats.add("third_party_custom")
+        feats.add("omitted_operand_before_real_operand")
+        return o
+    if kind == "svdf_float":
+        # float SVDF on the CPU: [input, weights_feature, weights_time, bias = -1, state (variable)]
+        isz = xt.shape[-1]
+        batch = int(np.prod(xt.shape[:-1]))
+        rank, units, mem = 1, rng.choice([2, 3]), rng.choice([2, 4])
+        nf = units * rank
+        f = b.net.add(T(b.fresh("t"), xt.shape, "float32"))
+        b.net.ops.append(Op("DEQUANTIZE", [cur], [f], ("DequantizeOptions", {})))
+        f2 = b.net.add(T(b.fresh("t"), [batch, isz], "float32"))
+        shp = b.const([2], "int32", [batch, isz], name=b.fresh("shape"))
+        b.net.ops.append(Op("RESHAPE", [f, shp], [f2], ("ReshapeOptions", dict(NewShape=[batch, isz]))))
+        wf = b.const([nf, isz], "float32", np.linspace(-1, 1, nf * isz), name=b.fresh("wf"))
+        wt = b.const([nf, mem], "float32", np.linspace(0, 1, nf * mem), name=b.fresh("wt"))
+        state = b.net.add(T(b.fresh("state"), [batch, mem * nf], "float32", variable=True))
+        with_bias = rng.random() < 0.25
+        bias = b.const([units], "float32", np.zeros(units), name=b.fresh("b")) if with_bias else -1
+        g = b.net.add(T(b.fresh("t"), [batch, units], "float32"))
+        b.net.ops.append(Op("SVDF", [f2, wf, wt, bias, state], [g], ("SVDFOptions", dict(Rank=rank, FusedActivationFunction=rng.choice([0, 1])))))
+        o = b.fm([batch, units], xt.dtype)
+        b.net.ops.append(Op("QUANTIZE", [g], [o], ("QuantizeOptions", {})))
+        feats.add("svdf_float_cpu")
+        feats.add("variable_tensor_operand")
+        if not with_bias:
+            feats.add("omitted_operand_before_real_operand")
+        return o
+    if kind == "tconv_mid_missing" and _rank4(b, cur) and xt.shape[1] * xt.shape[2] <= 64 and xt.shape[3] <= 8:
+        # float TRANSPOSE_CONV with the bias slot omitted but followed by a further (fifth) operand
+        n, h, w, c = xt.shape
+        oc = 2
+        f = b.net.add(T(b.fresh("t"), xt.shape, "float32"))
+        b.net.ops.append(Op("DEQUANTIZE", [cur], [f], ("DequantizeOptions", {})))
+        wt = b.const([oc, 2, 2, c], "float32", np.linspace(-1, 1, oc * 4 * c), name=b.fresh("w"))
+        os_ = b.const([4], "int32", [n, h * 2, w * 2, oc], name=b.fresh("oshape"))
+        extra = b.const([1], "float32", [0.0], name=b.fresh("extra"))
+        g = b.net.add(T(b.fresh("t"), [n, h * 2, w * 2, oc], "float32"))
+        b.net.ops.append(Op("TRANSPOSE_CONV", [os_, wt, f, -1, extra], [g], ("TransposeConvOptions", dict(
+            Padding=0, StrideW=2, StrideH=2, FusedActivationFunction=rng.choice([0, 1])))))
+        o = b.fm([n, h * 2, w * 2, oc], xt.dtype)
+        b.net.ops.append(Op("QUANTIZE", [g], [o], ("QuantizeOptions", {})))
+        feats.add("omitted_operand_before_real_operand")
+        feats.add("float_detour")
+        return o
     if kind == "custom_const_in":
         c = b.const(xt.shape[-1:], xt.dtype, np.arange(xt.shape[-1]) % 100, xt.scales, xt.zps, 0)
         return third_party(b, [cur, c] if rng.random() < 0.5 else [c, cur], 1, feats=feats)[0]
@@ -464,5 +517,16 @@ def c11_net(rng, idx=0):
             feats.add("operator_version_gt1")
     if len(net.inputs) > 1:
         feats.add("multiple_inputs")
+    # quantisation min/max (as written by converters that keep the calibration range) on all / some quantised tensors
+    r = rng.random()
+    if r < 0.55:
+        some = r >= 0.4
+        for t in net.tensors:
+            if t.scales is not None and len(t.scales) == 1 and t.dtype in ("int8", "uint8", "int16") and not (some and rng.random() < 0.5):
+                lo, hi = netgen._qrange(t.dtype)
+                z = (t.zps or [0])[0]
+                t.qmin = [float(np.float32(t.scales[0] * (lo - z)))]
+                t.qmax = [float(np.float32(t.scales[0] * (hi - z)))]
+                feats.add("quantisation_min_max")
     net.features = feats
     return net
